@@ -1,11 +1,215 @@
-(* C17 — property theorems only. *)
-From Coq Require Import List NArith Bool Arith.
+(* C17 — property theorems only.  The exponent-model theorems hold for EVERY field F (field_theory hypothesis, with a
+   boolean equality deciding Leibniz equality), every challenge function H and every generator function gen; these
+   primitive assumptions stay visible as hypotheses of the closed statements.  Instance: Qc (Examples below);
+   the correspondence executes the same definitions over Z_(2^61-1). *)
+From Coq Require Import List NArith Bool Arith Field QArith Qcanon.
 Import ListNotations.
-From VF Require Import C17.Model C17.Proofs.
+From VF Require Import C17.Model C17.Proofs C17.ExpProofs.
 
+(* ---------- codec ---------- *)
+(* what DeriveProof writes as payload is read back by VerifyProof as the same count and the same revealed indexes,
+   for every count below 2^16 and every strictly sorted index list below the count *)
 Theorem payload_roundtrip : forall (n : nat) (R : list nat) (rest : list N),
   (N.of_nat n < 65536)%N -> sorted_below n R ->
   exists pb, payload_bytes n R = Some pb /\
              exists bits, parse_payload (pb ++ rest) = Some (n, bits, rest) /\ revealed_of bits = R.
 Proof. exact payload_roundtrip_lemma. Qed.
 Print Assumptions payload_roundtrip.
+
+Section Statements.
+  Variable F : Type.
+  Variables (f0 f1 : F) (fadd fmul fsub : F -> F -> F) (fopp : F -> F) (fdiv : F -> F -> F) (finv : F -> F).
+  Variable feqb : F -> F -> bool.
+  Variable H : list F -> F -> F.
+  Variable gen : F -> nat -> nat -> F.
+  Definition is_field : Prop := field_theory f0 f1 fadd fmul fsub fopp fdiv finv (@eq F).
+  Definition decides_eq : Prop := forall a b, feqb a b = true <-> a = b.
+  Definition verify_m := verify_gen F f0 f1 fadd fmul fsub fopp feqb H gen.
+  Definition derive_m := derive F f0 f1 fadd fmul fsub fopp fdiv feqb H gen.
+  Definition dot_m := dot F f0 fadd fmul.
+  Definition lin_m := lin F f0 fadd fmul.
+  Definition rv_of (w : F) (pf : proof F) (sup : list F) := fst (vsplit F f0 (p_mask pf) (hs F gen w (p_count pf)) sup).
+  Definition hidden_of (w : F) (pf : proof F) (sup : list F) := snd (vsplit F f0 (p_mask pf) (hs F gen w (p_count pf)) sup).
+End Statements.
+
+(* ---------- index bookkeeping ---------- *)
+(* for every mask, generator list and message vector: from the selected messages (followed by anything) the verifier
+   rebuilds exactly the prover's partition: message i is paired with generator h_i for exactly the revealed i *)
+Theorem bookkeeping : forall F (f0 : F) mask gens msgs extra,
+  length gens = length msgs ->
+  vsplit F f0 mask gens (map snd (fst (split_mask F mask (combine gens msgs))) ++ extra)
+  = (fst (split_mask F mask (combine gens msgs)), map fst (snd (split_mask F mask (combine gens msgs)))).
+Proof.
+  intros F f0 mask gens msgs extra Hl. pose proof (ExpProofs.bookkeeping F f0 mask gens msgs extra Hl) as B.
+  destruct (split_mask F mask (combine gens msgs)); exact B.
+Qed.
+Print Assumptions bookkeeping.
+
+(* ---------- completeness ---------- *)
+(* for every message vector, every signature that verifies, every non-empty reveal mask, every nonce and all prover
+   randomness (r1 <> 0): the derived proof verifies with exactly the selected messages *)
+Theorem completeness : forall F f0 f1 fadd fmul fsub fopp fdiv finv feqb H gen,
+  is_field F f0 f1 fadd fmul fsub fopp fdiv finv -> decides_eq F feqb ->
+  forall w msgs sg nonce mask r1 r2 bl pf,
+  derive_m F f0 f1 fadd fmul fsub fopp fdiv feqb H gen w msgs sg nonce mask r1 r2 bl = Some pf ->
+  r1 <> f0 -> length mask = length msgs ->
+  verify_m F f0 f1 fadd fmul fsub fopp feqb H gen false Fixed w pf nonce (select mask msgs) = VAccept.
+Proof.
+  intros until pf. intros Hd Hr Hl. rewrite <- (app_nil_r (select mask msgs)).
+  eapply complete_lemma; eauto.
+Qed.
+Print Assumptions completeness.
+
+(* ---------- exact message count ---------- *)
+(* FULL statement "a supplemented list is rejected" is REFUTED for the code as it is (known finding
+   supplemented-suffix-accept): every honest proof also verifies with any messages appended *)
+Theorem exact_count_refuted : forall F f0 f1 fadd fmul fsub fopp fdiv finv feqb H gen,
+  is_field F f0 f1 fadd fmul fsub fopp fdiv finv -> decides_eq F feqb ->
+  forall w msgs sg nonce mask r1 r2 bl pf extra,
+  derive_m F f0 f1 fadd fmul fsub fopp fdiv feqb H gen w msgs sg nonce mask r1 r2 bl = Some pf ->
+  r1 <> f0 -> length mask = length msgs ->
+  verify_m F f0 f1 fadd fmul fsub fopp feqb H gen false Fixed w pf nonce (select mask msgs ++ extra) = VAccept.
+Proof. intros; eapply complete_lemma; eauto. Qed.
+Print Assumptions exact_count_refuted.
+
+(* what holds instead: fewer messages than revealed indexes are rejected, and the verdict on a longer list is the
+   verdict on its first |revealed| messages (the surplus is never looked at) *)
+Theorem exact_count_partial : forall F f0 f1 fadd fmul fsub fopp feqb H gen w pf nonce sup,
+  ((length sup < count_true (p_mask pf))%nat ->
+     verify_m F f0 f1 fadd fmul fsub fopp feqb H gen false Fixed w pf nonce sup = VReject) /\
+  ((count_true (p_mask pf) <= length sup)%nat ->
+     verify_m F f0 f1 fadd fmul fsub fopp feqb H gen false Fixed w pf nonce sup
+     = verify_m F f0 f1 fadd fmul fsub fopp feqb H gen false Fixed w pf nonce (firstn (count_true (p_mask pf)) sup)).
+Proof.
+  intros. split.
+  - intros Hlt. unfold verify_m, verify_gen. apply Nat.ltb_lt in Hlt. rewrite Hlt. reflexivity.
+  - apply surplus_lemma.
+Qed.
+Print Assumptions exact_count_partial.
+
+(* the strict variant (the repair that two existing tests do not admit) has the exact-count property *)
+Theorem exact_count_strict : forall F f0 f1 fadd fmul fsub fopp fdiv finv feqb H gen,
+  is_field F f0 f1 fadd fmul fsub fopp fdiv finv -> decides_eq F feqb ->
+  forall w pf nonce sup,
+  verify_m F f0 f1 fadd fmul fsub fopp feqb H gen true Fixed w pf nonce sup = VAccept ->
+  length sup = count_true (p_mask pf).
+Proof.
+  intros until sup. intros A. eapply verify_accept_iff in A; eauto. destruct A as [_ [E _]]. auto.
+Qed.
+Print Assumptions exact_count_strict.
+
+(* ---------- binding (symbolic counterpart of soundness: acceptance of two different inputs forces an algebraic
+   coincidence among the challenge value and the generator logs) ---------- *)
+(* changed / reordered / other revealed messages: if the same proof is accepted with two message lists then the
+   challenge is 0 or the two lists have the same generator-weighted sum *)
+Theorem binding_messages : forall F f0 f1 fadd fmul fsub fopp fdiv finv feqb H gen,
+  is_field F f0 f1 fadd fmul fsub fopp fdiv finv -> decides_eq F feqb ->
+  forall strict w pf nonce s1 s2,
+  verify_m F f0 f1 fadd fmul fsub fopp feqb H gen strict Fixed w pf nonce s1 = VAccept ->
+  verify_m F f0 f1 fadd fmul fsub fopp feqb H gen strict Fixed w pf nonce s2 = VAccept ->
+  challenge_of F f0 H gen w pf nonce = f0 \/
+  dot_m F f0 fadd fmul (rv_of F f0 gen w pf s1) = dot_m F f0 fadd fmul (rv_of F f0 gen w pf s2).
+Proof. intros; eapply binding_messages_lemma; eauto. Qed.
+Print Assumptions binding_messages.
+
+(* other nonce: accepted under two nonces only if the two challenges collide or Abar = d *)
+Theorem binding_nonce : forall F f0 f1 fadd fmul fsub fopp fdiv finv feqb H gen,
+  is_field F f0 f1 fadd fmul fsub fopp fdiv finv -> decides_eq F feqb ->
+  forall strict w pf n1 n2 sup,
+  verify_m F f0 f1 fadd fmul fsub fopp feqb H gen strict Fixed w pf n1 sup = VAccept ->
+  verify_m F f0 f1 fadd fmul fsub fopp feqb H gen strict Fixed w pf n2 sup = VAccept ->
+  challenge_of F f0 H gen w pf n1 = challenge_of F f0 H gen w pf n2 \/ p_abar pf = p_d pf.
+Proof. intros; eapply binding_nonce_lemma; eauto. Qed.
+Print Assumptions binding_nonce.
+
+(* other key: accepted under two keys only if they are equal or A' is the identity *)
+Theorem binding_key : forall F f0 f1 fadd fmul fsub fopp fdiv finv feqb H gen,
+  is_field F f0 f1 fadd fmul fsub fopp fdiv finv -> decides_eq F feqb ->
+  forall strict w1 w2 pf n1 n2 s1 s2,
+  verify_m F f0 f1 fadd fmul fsub fopp feqb H gen strict Fixed w1 pf n1 s1 = VAccept ->
+  verify_m F f0 f1 fadd fmul fsub fopp feqb H gen strict Fixed w2 pf n2 s2 = VAccept ->
+  w1 = w2 \/ p_aprime pf = f0.
+Proof. intros; eapply binding_key_lemma; eauto. Qed.
+Print Assumptions binding_key.
+
+(* altered response scalars: the altered vectors must give the same linear combinations of the bases *)
+Theorem binding_responses : forall F f0 f1 fadd fmul fsub fopp fdiv finv feqb H gen,
+  is_field F f0 f1 fadd fmul fsub fopp fdiv finv -> decides_eq F feqb ->
+  forall strict w pf r1' r2' nonce sup,
+  verify_m F f0 f1 fadd fmul fsub fopp feqb H gen strict Fixed w pf nonce sup = VAccept ->
+  verify_m F f0 f1 fadd fmul fsub fopp feqb H gen strict Fixed w
+    {| p_count := p_count pf; p_mask := p_mask pf; p_aprime := p_aprime pf; p_abar := p_abar pf; p_d := p_d pf;
+       p_c1 := p_c1 pf; p_r1 := r1'; p_c2 := p_c2 pf; p_r2 := r2' |} nonce sup = VAccept ->
+  lin_m F f0 fadd fmul [p_aprime pf; h0 F gen w (p_count pf)] r1'
+  = lin_m F f0 fadd fmul [p_aprime pf; h0 F gen w (p_count pf)] (p_r1 pf) /\
+  lin_m F f0 fadd fmul (p_d pf :: h0 F gen w (p_count pf) :: hidden_of F f0 gen w pf sup) r2'
+  = lin_m F f0 fadd fmul (p_d pf :: h0 F gen w (p_count pf) :: hidden_of F f0 gen w pf sup) (p_r2 pf).
+Proof. intros; eapply binding_responses_lemma; eauto. Qed.
+Print Assumptions binding_responses.
+
+(* ---------- crafted proof bytes never crash the repaired verifier; the proof buffer is left alone ---------- *)
+Theorem never_panics : forall bs, parse_sigproof Fixed bs <> PPanic.
+Proof.
+  intros bs. unfold parse_sigproof.
+  destruct (length bs <? 144); [discriminate|]. destruct (length bs <? 148); [discriminate|].
+  destruct (N.ltb _ _); [discriminate|].
+  destruct (parse_pg1 _); [destruct (parse_pg1 _)|]; discriminate.
+Qed.
+Print Assumptions never_panics.
+
+Theorem verify_never_panics : forall F f0 f1 fadd fmul fsub fopp feqb H gen strict w pf nonce sup,
+  verify_m F f0 f1 fadd fmul fsub fopp feqb H gen strict Fixed w pf nonce sup <> VPanic.
+Proof.
+  intros. unfold verify_m, verify_gen. destruct (_ || _); [discriminate|].
+  destruct (vsplit _ _ _ _ _). destruct (negb _); [discriminate|]. unfold pg1_verify.
+  destruct (Nat.eqb _ _); [destruct (feqb _ _)|]; try discriminate.
+  destruct (Nat.eqb _ _); [destruct (feqb _ _)|]; discriminate.
+Qed.
+Print Assumptions verify_never_panics.
+
+Theorem proof_buffer_untouched : forall bs, proof_after_verify Fixed bs = bs.
+Proof. reflexivity. Qed.
+Print Assumptions proof_buffer_untouched.
+
+(* HISTORICAL REFUTATIONS (code before the fix: commits; witnesses in corpus/C17) *)
+Theorem never_panics_asis_refuted :
+  parse_sigproof AsIs (repeat 0%N 144) = PPanic /\
+  parse_sigproof AsIs (repeat 0%N 144 ++ [0; 0; 9; 8]%N ++ repeat 0%N 300) = PPanic /\
+  pg1_verify nat 0%nat Nat.add Nat.mul Nat.eqb AsIs [1; 1]%nat 0%nat 0%nat 0%nat [1]%nat = VPanic.
+Proof. repeat split; vm_compute; reflexivity. Qed.
+Print Assumptions never_panics_asis_refuted.
+
+Theorem proof_buffer_untouched_asis_refuted :
+  proof_after_verify AsIs [0; 9; 1; 20; 7]%N <> [0; 9; 1; 20; 7]%N.
+Proof. vm_compute. discriminate. Qed.
+Print Assumptions proof_buffer_untouched_asis_refuted.
+
+(* ---------- non-vacuity: the hypotheses are satisfiable (Qc) and an honest derivation exists ---------- *)
+Definition qeqb (a b : Qc) : bool := if Qc_eq_dec a b then true else false.
+Definition qH (l : list Qc) (nonce : Qc) : Qc := fold_left (fun a x => a * Q2Qc 2 + x) l (Q2Qc 1) + nonce.
+Definition qgen (w : Qc) (n i : nat) : Qc := Q2Qc (inject_Z (Z.of_nat (3 + n + 2 * i))) + w.
+
+Example qc_is_field : is_field Qc 0%Qc 1%Qc Qcplus Qcmult Qcminus Qcopp Qcdiv Qcinv.
+Proof. exact Qcft. Qed.
+Example qc_decides_eq : decides_eq Qc qeqb.
+Proof. intros a b. unfold qeqb. destruct (Qc_eq_dec a b); split; auto; discriminate. Qed.
+
+Example honest_nonvacuous :
+  let msgs := map (fun z => Q2Qc (inject_Z z)) [5; 7; 11; 13]%Z in
+  let w := Q2Qc 2 in
+  let sg := sign Qc 0%Qc 1%Qc Qcplus Qcmult Qcdiv qgen w msgs (Q2Qc 3) (Q2Qc 4) in
+  let mask := [true; false; true; false] in
+  match derive Qc 0%Qc 1%Qc Qcplus Qcmult Qcminus Qcopp Qcdiv qeqb qH qgen w msgs sg (Q2Qc 9) mask (Q2Qc 5) (Q2Qc 6)
+               (fun i => Q2Qc (inject_Z (Z.of_nat (i + 2)))) with
+  | None => False
+  | Some pf =>
+      let v := verify Qc 0%Qc 1%Qc Qcplus Qcmult Qcminus Qcopp qeqb qH qgen Fixed w pf (Q2Qc 9) in
+      v (select mask msgs) = VAccept /\
+      v (select mask msgs ++ [Q2Qc 99]) = VAccept /\                       (* the known finding *)
+      v [Q2Qc 5; Q2Qc 12] = VReject /\                                    (* changed *)
+      v [Q2Qc 11; Q2Qc 5] = VReject /\                                    (* reordered *)
+      v [Q2Qc 5] = VReject /\                                             (* dropped *)
+      verify Qc 0%Qc 1%Qc Qcplus Qcmult Qcminus Qcopp qeqb qH qgen Fixed w pf (Q2Qc 10) (select mask msgs) = VReject /\
+      verify Qc 0%Qc 1%Qc Qcplus Qcmult Qcminus Qcopp qeqb qH qgen Fixed (Q2Qc 3) pf (Q2Qc 9) (select mask msgs) = VReject
+  end.
+Proof. vm_compute. repeat split. Qed.
